@@ -71,22 +71,22 @@ def check_fmt(ctx):
   f_str = ix.func("ttconv.time_code:SmpteTimeCode.__str__")
   plan = parse_plan(ix, ix.func("ttconv.time_code:SmpteTimeCode.parse"))
   ctx.unit(f_str.module)
-  rets = [n for n in own_nodes(f_str.node) if isinstance(n, ast.Return)]
-  ctx.floor("FMT", "return branches of SmpteTimeCode.__str__", len(rets), 2)
+  variants = sk.of_variants(f_str, {})
+  ctx.floor("FMT", "printed variants of SmpteTimeCode.__str__", len(variants), 2)
   samples = {"self._hours": [0, 7, 23, 99], "self._minutes": [0, 9, 59, 30], "self._seconds": [0, 5, 59, 1], "self._frames": [0, 1, 29, 59]}
-  for b in range(len(rets)):
-    skel = sk.of_method(f_str, {}, branch=b)
+  for b, (conds, skel, rnode) in enumerate(variants):
+    df_conds = [(k, v) for k, v in conds.items() if "is_drop_frame" in k]
+    is_df_branch = bool(df_conds) and all((v if not k.startswith("not ") else not v) for k, v in df_conds)
+    label = "drop-frame" if is_df_branch else "non-drop"
     for text, vals in fmt.instantiate(skel, samples):
       got, pat = emulate_parse(plan, text)
-      key = f"ttconv.time_code:SmpteTimeCode.__str__|branch{b}|{text}"
+      key = f"ttconv.time_code:SmpteTimeCode.__str__|{label}|{text}"
       ok = got is not None and [int(v) for v in got.values()] == [vals["self._hours"], vals["self._minutes"], vals["self._seconds"], vals["self._frames"]]
       # the drop-frame form must be recognised as drop-frame (and vice versa): parse() derives the frame rate from the pattern that matched
-      par = getattr(rets[b], "_parent", None)
-      is_df_branch = isinstance(par, ast.If) and "is_drop_frame" in unparse(par.test) and rets[b] in par.body
       if ok:
         df_groups = all(g.startswith("df_") for g in got)
         ok = df_groups == is_df_branch
-      ctx.check(ok, "FMT", key, ctx.where(f_str.module, rets[b]),
+      ctx.check(ok, "FMT", key, ctx.where(f_str.module, f_str.node),
                 f"printed `{text}` parsed back by {pat!r} to {got}",
                 f"SmpteTimeCode prints `{text}` but SmpteTimeCode.parse recovers {got} (pattern {pat!r}): parsing a printed time code does not return it")
     # drop-frame print must not be taken by the non-drop pattern (and vice versa): the first
